@@ -2,6 +2,7 @@
    Mirrors the code of the repaired tree; tables come from Gen (regenerated from /repo).  No proofs. *)
 From Coq Require Import List NArith ZArith Bool Arith.
 From PV Require Import Base.Bytes Base.Lit Base.Json Base.Utf8 Base.PelTypes Model.Hexdump Model.Parse Gen.Tables.
+From PV Require Import Model.JsonLoads.
 Import ListNotations.
 Open Scope N_scope.
 
@@ -189,17 +190,29 @@ Definition ud_value_of (e : env) (c : config) (creator : text) (comp sub ver : N
   else if allow_plugins c then custom_value e creator comp sub ver d
   else UVJson (JObj (data_obj d)).
 
-(* j is a dict -> out.update(j), otherwise out['Data'] = j.  UVText is left to json.loads: the harness
-   resolves the marker with Python's own json.loads (trusted), falling back to the hex dump of the text *)
+(* j is a dict -> out.update(j), otherwise out['Data'] = j.  UVText goes through json.loads (Model/JsonLoads.v); text that
+   is not JSON (or holds an integer literal over the digit limit) is hex dumped.  Only where the model of json.loads does
+   not decide (a float in the value, nesting deeper than depth_limit) the text is handed to the harness behind the marker
+   "@loads", which applies Python's own json.loads, with the hex dump of the text as "@fallback" *)
 Definition merge_value (base : list (text * json)) (v : ud_value) : option (list (text * json)) :=
   match v with
   | UVReject => None
   | UVJson (JObj l) => Some (obj_update base l)
   | UVJson j => Some (obj_set base (L "Data") j)
   | UVText t =>
-      match utf8_encode t with
-      | Some b => Some (base ++ [(L "@loads", js t); (L "@fallback", jstrs (hexdump b))])
-      | None => None
+      match loads t with
+      | LOk (JObj l) => Some (obj_update base l)
+      | LOk j => Some (obj_set base (L "Data") j)
+      | LError =>
+          match utf8_encode t with
+          | Some b => Some (obj_set base (L "Data") (jstrs (hexdump b)))
+          | None => None
+          end
+      | LBeyond =>
+          match utf8_encode t with
+          | Some b => Some (base ++ [(L "@loads", js t); (L "@fallback", jstrs (hexdump b))])
+          | None => None
+          end
       end
   end.
 
@@ -223,7 +236,12 @@ Definition proc_desc (e : env) (creator : text) (proc : text) : list (text * jso
   | IFound f =>
       match f proc with
       | PRetJ j => [(L "Description", j)]
-      | PRetT t => [(L "@loads_opt:Description", js t)]
+      | PRetT t =>
+          match loads t with
+          | LOk j => [(L "Description", j)]
+          | LError => []
+          | LBeyond => [(L "@loads_opt:Description", js t)]
+          end
       | _ => []
       end
   | _ => []
@@ -303,13 +321,22 @@ Fixpoint numbered_words (i : N) (ws : list text) : list (text * json) :=
 
 Definition pad8 (ws : list text) : list text := ws ++ repeat (L "00000000") (8 - length ws).
 
+(* value is not None and value != '' and value != 'null'  ->  out["SRC Details"] = json.loads(value), uncaught *)
+Definition src_details_text (t : text) : option (list (text * json)) :=
+  if text_eqb t [] || text_eqb t (L "null") then Some []
+  else match loads t with
+       | LOk j => Some [(L "SRC Details", j)]
+       | LError => None
+       | LBeyond => Some [(L "@loads_strict:SRC Details", js t)]
+       end.
+
 Definition src_details (e : env) (creator : text) (ascii : text) (ws : list text) : option (list (text * json)) :=
   match src_import e (src_module creator) with
   | IFound f =>
       match f ascii (pad8 ws) with
       | PRetJ JNull => Some []
       | PRetJ j => Some [(L "SRC Details", j)]
-      | PRetT t => Some [(L "@loads_strict:SRC Details", js t)]
+      | PRetT t => src_details_text t
       | PRetEmpty => Some []
       | PNone => Some []
       | PNonStr => None
